@@ -112,7 +112,9 @@ class AstNode(object):
         * namespace member
         * enumerator
         """
-        raise NotImplemented  # virtual function
+        raise NotImplementedError(
+            "'{}' is not a scope, cannot look up '{}'".format(
+                getattr(self, "name", self), name))
 
     def unqualified_lookup(self, name):
         """Look for symbols within a scope.
@@ -121,7 +123,9 @@ class AstNode(object):
         right of a scope resolution operator '::'.  This is the current
         scope, self.symbols, and any scopes added via a 'using' statement.
         """
-        raise NotImplemented  # virtual function
+        raise NotImplementedError(
+            "'{}' is not a scope, cannot look up '{}'".format(
+                getattr(self, "name", self), name))
 
 
 ######################################################################
